@@ -20,6 +20,7 @@ type tableFeat struct {
 	CellAttr   string // "", abbr, headers, scope, loneabbr
 	Summary    bool
 	Object     string // "", embed, object, applet, iframe
+	BlankCap   bool   // an empty <caption> in front of another header structure (never alone)
 	Place      string // div, section, blockquote, layout-td
 }
 
@@ -134,6 +135,9 @@ func (f tableFeat) html(g *tokCounter) string {
 		sb.WriteString(` summary="s"`)
 	}
 	sb.WriteString(">")
+	if f.BlankCap && f.Header != "" && f.Header != "caption" {
+		sb.WriteString("<caption> </caption>")
+	}
 	switch f.Header {
 	case "caption":
 		sb.WriteString("<caption>" + g.tok() + "</caption>")
